@@ -1,5 +1,5 @@
 #!/bin/bash
-# usage: tools/confirm6.sh <NAME>     e.g. C01A — re-confirms a round-6 seeded change in its scratch worktree /var/tmp/mut6/<NAME>
+# usage: tools/confirm6.sh <NAME>     e.g. C01A — re-confirms a round-6 seeded change in a scratch worktree /var/tmp/mut6/<NAME> (create it with git worktree add; outputs in /var/tmp/mut6/<NAME>.out)
 # (output directory /var/tmp/mut6/<NAME>.out holds patch.diff and demo.sh): applies, builds, runs the unedited suite, runs the
 # demonstration with and without the change.
 set -u
